@@ -64,13 +64,21 @@ def _elems(s):
     return ['REF', 'EA', 'X1']
 
 
+BODY_FORMS = [['REF', 'EA', 'X1'], ['LS', '2120'], ['NM1', 'IL', '1', 'A'], ['LE', '2120'], ['DTP', '472', 'D8', '20200101'], ['LQ', 'AS', 'A'],
+              ['N1', 'PR', 'A'], ['SBR', 'P', '18']]
+
+
 def concretise(hist, triple, eol='', pad=True):
     st, et, ct = triple
     out = []
-    for s in hist:
+    for i, s in enumerate(hist):
         el = seg_elems(s, pad)
         if el[0] == 'ISA':
             el = el[:-1] + [ct]
+        elif el[0] == 'REF' and not pad:
+            # C04's own histories: an ordinary body segment is written with rotating segment ids (none of them special to the
+            # reader: the definition knows only 'some other segment')
+            el = BODY_FORMS[i % len(BODY_FORMS)]
         out.append(et.join(el) + st + eol)
     return ''.join(out)
 
@@ -307,10 +315,16 @@ def run(tier, replay=None):
             modeldiff[d['c']] = modeldiff.get(d['c'], 0) + 1
         if not hists:
             raise vlib.MachineryError('EnvelopeGen %s emitted no history' % label)
-        batches = [(tid + i, b, lx) for i, b in zip(range(0, len(hists), 2000), vlib.chunked(hists, 2000))]
-        traces = [t for r in vlib.parallel_map(_record_batch, batches) for t in r]
-        tid += len(hists)
-        validate(chk, traces, label)
+        # recorded and validated in slices: the thorough configurations emit up to a million histories
+        for off in range(0, len(hists), 40000):
+            part = hists[off:off + 40000]
+            batches = [(tid + i, b, lx) for i, b in zip(range(0, len(part), 2000), vlib.chunked(part, 2000))]
+            traces = [t for r in vlib.parallel_map(_record_batch, batches) for t in r]
+            tid += len(part)
+            validate(chk, traces, label if len(hists) <= 40000 else '%s [%d..]' % (label, off))
+            del traces
+        del hists
+        res.payloads.clear()
     # repository fixtures and concatenations (multi-interchange files)
     traces = []
     fx = fixtures()
